@@ -28,6 +28,9 @@ enum BoxChoice {
 	/// a consumer that opens the stream over this box, takes `take` tiles and drops it; nothing
 	/// is asserted about it, the boxes after it are checked on the same source
 	Abandon { spec: BoxSpec, take: u8 },
+	/// like `Abandon`, but the consumer polls the stream that many times, ready or not, and then
+	/// drops it: the stream may be in the middle of assembling its next tiles
+	AbandonPolls { spec: BoxSpec, polls: u8 },
 }
 
 #[derive(Clone, Debug, Serialize, Deserialize)]
@@ -56,10 +59,11 @@ fn strategy() -> impl Strategy<Value = Case> {
 	let one = prop_oneof![
 		6 => box_spec().prop_map(BoxChoice::Spec),
 		1 => (box_spec(), 0u8..6).prop_map(|(spec, take)| BoxChoice::Abandon { spec, take }),
+		1 => (box_spec(), 1u8..12).prop_map(|(spec, polls)| BoxChoice::AbandonPolls { spec, polls }),
 	];
 	(src(31), proptest::collection::vec(one, 1..6), box_spec()).prop_map(|(src, mut boxes, last)| {
 		// an abandoned stream is followed by a checked one
-		if matches!(boxes.last(), Some(BoxChoice::Abandon { .. })) {
+		if matches!(boxes.last(), Some(BoxChoice::Abandon { .. } | BoxChoice::AbandonPolls { .. })) {
 			boxes.push(BoxChoice::Spec(last));
 		}
 		Case { src, boxes }
@@ -150,6 +154,18 @@ fn oracle(case: &Case, obs: &mut Obs) -> Result<(), Fail> {
 						after_abandon = true;
 					}
 					Err(p) => return Err(Fail::from_panic(&format!("stream over box {desc}, dropped after {take} tiles"), &p)),
+				}
+				continue;
+			}
+			BoxChoice::AbandonPolls { spec, polls } => {
+				let bbox = resolve_box(spec, &cov, b.max_side);
+				let desc = format!("{bbox:?}");
+				match b.source.stream_abandon_polls(bbox, *polls as usize) {
+					Ok((_, pending)) => {
+						obs.label(if pending > 0 { "abandoned-stream:while-pending" } else { "abandoned-stream:never-pending" }.to_string());
+						after_abandon = true;
+					}
+					Err(p) => return Err(Fail::from_panic(&format!("stream over box {desc}, dropped after {polls} polls"), &p)),
 				}
 				continue;
 			}
@@ -271,7 +287,7 @@ fn main() {
 	let mut check = Check::from_args(
 		"C02",
 		"exploration",
-		"sources: container readers over fixtures (written by the repository's writers or the harness's independent encoders incl. sparse/partial versatiles blocks, PMTiles runs/leaves, MBTiles views), the converting reader (4 flag combinations, recompression, zoom selection), pipelines rendered to VPL (from_container, from_debug, from_overlayed, from_vectortiles_merged, filter_zoom, filter_bbox, nested to depth 3); boxes positioned relative to the advertised coverage (inside, overlapping an edge, outside, containing, row/column, whole 256-blocks +-1, both empty encodings, levels without data; now and then a consumer that opens a stream, takes 0-5 tiles and drops it, before the next checked box on the same source), exhaustively all boxes at zoom <= 2, one versatiles block with > 64 MiB of tile data, and a phase in which each case runs in a child process restricted to one CPU (num_cpus::get() = 1; a stream whose future is pending, never woken again and without live tasks in the runtime counts as 'does not finish'); oracle: stream terminates, every delivered tile is inside the box, unique and equal to the lookup, and every coordinate of the box (all of them up to 4096, else all model-tile coordinates and corners) with a lookup result is delivered; non-trivial = box partially overlapping / containing the coverage or on a level without data, on a source with >= 2 distinct tiles",
+		"sources: container readers over fixtures (written by the repository's writers or the harness's independent encoders incl. sparse/partial versatiles blocks, PMTiles runs/leaves, MBTiles views), the converting reader (4 flag combinations, recompression, zoom selection), pipelines rendered to VPL (from_container, from_debug, from_overlayed, from_vectortiles_merged, filter_zoom, filter_bbox, nested to depth 3); boxes positioned relative to the advertised coverage (inside, overlapping an edge, outside, containing, row/column, whole 256-blocks +-1, both empty encodings, levels without data; now and then a consumer that opens a stream, takes 0-5 tiles (or polls it 1-11 times, ready or not) and drops it, before the next checked box on the same source), exhaustively all boxes at zoom <= 2, one versatiles block with > 64 MiB of tile data, and a phase in which each case runs in a child process restricted to one CPU (num_cpus::get() = 1; a stream whose future is pending, never woken again and without live tasks in the runtime counts as 'does not finish'); oracle: stream terminates, every delivered tile is inside the box, unique and equal to the lookup, and every coordinate of the box (all of them up to 4096, else all model-tile coordinates and corners) with a lookup result is delivered; non-trivial = box partially overlapping / containing the coverage or on a level without data, on a source with >= 2 distinct tiles",
 	);
 	check.assume("multi-thread tokio runtime with 3 workers per runner thread; lookups with empty payloads are not distinguished from absent tiles");
 	vt::engine::watchdog(3600);
